@@ -550,6 +550,9 @@ Theorem C16_src_op_rshift : forall s (t : obj) (vs : list (option obj)), WF s ->
   src_op_rshift (S (S (length (hp s)))) (hp s) t vs = lift_v (op_shift false s t vs) vs.
 Proof. exact src_op_rshift_eq. Qed.
 
+Theorem C16_src_set_estimate : forall s t e, src_set_estimate (hp s) t e = lift_set s (set_est s t e).
+Proof. exact src_set_estimate_eq. Qed.
+
 Print Assumptions C16_move.
 Print Assumptions C16_move_one.
 Print Assumptions C16_insert.
@@ -614,3 +617,4 @@ Print Assumptions C16_src_ch_insert_index_error.
 Print Assumptions C16_src_op_floordiv.
 Print Assumptions C16_src_op_lshift.
 Print Assumptions C16_src_op_rshift.
+Print Assumptions C16_src_set_estimate.
